@@ -195,6 +195,74 @@ func c07(c *ev.Ctx) {
 	// loops abandoned by return / error in one run, later runs that skip them and enter
 	// other loops mentioning their names (the stream is shared with C02)
 	c02ExitHistories(c)
+	c07HostileHistories(c)
+}
+
+type c07Odd struct {
+	F0 map[interface{}]interface{}
+	F1 map[bool]int
+	M  map[string]int
+	A  map[uint8]string
+}
+
+// c07HostileHistories: runs over objects the engine cannot fully represent (maps with
+// unusable key kinds, nil maps, cyclic documents, functions, channels ...) must not change
+// what later runs over other objects see: every step is compared with a fresh evaluator
+// given the same object.
+func c07HostileHistories(c *ev.Ctx) {
+	scripts := []string{
+		`return [type(F0), type(F1), type(M), type(A), len(string(M))];`,
+		`n = 0; foreach k, v1 in M { n = n + 1; } return [n, type(F0), string(F1)];`,
+		`function look() { return [type(M), type(F0)]; } return [look(), len(string(A)), F1 == F1];`,
+		`return [keys(M), M.a, F0.x, type(Labels), type(Items), string(Labels)];`,
+	}
+	pool := func() []interface{} {
+		var nilMap map[string]interface{}
+		objs := append([]interface{}{}, gen.HostileValues()...)
+		objs = append(objs,
+			c07Odd{F0: map[interface{}]interface{}{"x": 1}, F1: map[bool]int{true: 1}, M: map[string]int{"a": 1}, A: map[uint8]string{1: "b"}},
+			&c07Odd{}, c07Odd{M: map[string]int{}},
+			map[string]interface{}{"F0": map[interface{}]interface{}{}, "M": map[string]interface{}{"a": 2}, "Labels": nilMap, "Items": []interface{}{nilMap, map[int]int{}}},
+			map[string]interface{}{"M": map[string]interface{}{}, "Labels": map[string]interface{}{}, "F1": map[bool]bool{}},
+			struct{ M, Labels map[string]string }{nil, map[string]string{"k": "v"}},
+			struct{ M map[string]interface{} }{map[string]interface{}{"a": nilMap}},
+		)
+		return objs
+	}
+	n := c.Pick(80, 2000)
+	c.ParFor(n, func(i int) {
+		id := fmt.Sprintf("hostile-history/%d", i)
+		if !c.Want(id) {
+			return
+		}
+		r := c.Rng("hostile-history", i)
+		objs := pool()
+		script := scripts[r.Intn(len(scripts))]
+		noOpt := r.Intn(2) == 0
+		used, err := eng.New(script, eng.Options{NoOptimize: noOpt, Budget: 200000})
+		if err != nil {
+			return
+		}
+		var seq []int
+		for step := 0; step < 8; step++ {
+			k := r.Intn(len(objs))
+			if step%2 == 1 {
+				k = len(objs) - 1 - r.Intn(7) // one of the plainer objects added above
+			}
+			seq = append(seq, k)
+			fresh, err := eng.New(script, eng.Options{NoOptimize: noOpt, Budget: 200000})
+			if err != nil {
+				return
+			}
+			a, b := used.Exec(objs[k]), fresh.Exec(objs[k])
+			c.Case(fmt.Sprint(id, step), true)
+			if a.Desc() != b.Desc() || errText(a.Err) != errText(b.Err) {
+				c.Violation(id, "a run over an odd object changes what later runs see", map[string]interface{}{
+					"summary": fmt.Sprintf("%s (noopt=%v), objects #%v of the pool one after the other: at step %d the used evaluator gives %s %s, a fresh one %s %s (object %T)", script, noOpt, seq, step+1, a.Desc(), errText(a.Err), b.Desc(), errText(b.Err), objs[k]), "script": script})
+				return
+			}
+		}
+	})
 }
 
 // c07Limits: failing runs deep inside recursion must not use up the call-depth budget
